@@ -28,7 +28,7 @@ def run(ctx):
         "return procedures terminate",
         "the rule table has the shape cl.compileExpr produces (Env.wf; evaluated by the driver on every compiled grammar: wf=1)",
     ]
-    common.standard(ctx, "GopModel.Props.C28", "c28", 2000, 40000, RULE, driver=_tplm.DRIVER)
+    common.standard(ctx, "GopModel.Props.C28", "c28", 2000, 40000, RULE, driver=_tplm.DRIVER, canon=_tplm.canon)
 
 
 replay = _tplm.replay
